@@ -13,8 +13,8 @@
        - `bytes.Buffer.Read(p)`: returns n < len(p) WITHOUT an error when the buffer holds fewer
          (but > 0) bytes; io.EOF only when the buffer is empty and len(p) > 0; (0, nil) when
          len(p) = 0. The bytes of p that were not filled stay zero.   -> bufRead
-   * Machine arithmetic that can wrap is written with explicit `mod 2^n` (uint8 `read`, `consumed`,
-     `pfxLen`, `1+nextHopLength`; uint16 `p`, `nlriLen`, `pa.Length-p`).
+   * Machine arithmetic that can wrap is written with explicit `mod 2^n` (uint8 `read`,
+     `pfxLen`, `1+nextHopLength`; uint16 `p` of decodePathAttrs).
    * Outcomes: `Ok v rest`, `Err` (Go returned an error), `Panic why` (Go would panic: slice bounds
      out of range; make with a negative size), `OutOfFuel` (the loop fuel ran out).
    * Cost: the second component of a result counts the bytes requested by every
@@ -219,6 +219,7 @@ Definition afiAddrLen (afi : N) : N := if afi =? 1 then 4 else if afi =? 2 then 
 (* helper.go: deserializePrefix *)
 Definition deserializePrefix (b : list N) (pfxLen afi : N) : M prefix :=
   _ <- guard (bytesInAddr pfxLen =? len b) ;;
+  _ <- guard (pfxLen <=? afiAddrLen afi * 8) ;;              (* fix 8d70c882: family width *)
   if afi =? 1 then ret (mkPfx (ipv4FromBytes b) pfxLen)
   else
     let alen := N.to_nat (afiAddrLen afi) in
@@ -236,14 +237,14 @@ Definition addPathFor (o : options) (afi safi : N) : bool :=
 
 (* ------------------------------------------------------------------ NLRI (nlri.go, label.go) *)
 
-(* the `for {}` loop over label stack entries; pfxLen and consumed are uint8 *)
+(* the `for {}` loop over label stack entries; pfxLen is uint8, consumed an int (fix cb347c01) *)
 Fixpoint decodeLabels (fuel : nat) (pfxLen consumed : N) (acc : list N) : M (list N * N * N) :=
   match fuel with
   | O => nofuel
   | S f =>
     '(lb, _) <- bufRead 3 ;;                               (* n is ignored by decodeLabelStackEntry *)
     let lse := nth 0 lb 0 * 65536 + nth 1 lb 0 * 256 + nth 2 lb 0 in
-    let consumed := (consumed + 3) mod 256 in
+    let consumed := consumed + 3 in
     let pfxLen := (pfxLen + 256 - 24) mod 256 in
     if N.odd lse then ret (rev (lse :: acc), pfxLen, consumed)
     else decodeLabels f pfxLen consumed (lse :: acc)
@@ -258,11 +259,11 @@ Definition decodeNLRI (fuel : nat) (afi safi : N) (addPath : bool) : M (nlri * N
   let numBytes := bytesInAddr pfxLen in
   _ <- alloc numBytes ;;                                     (* bytes := make([]byte, numBytes) *)
   bytes <- bufReadFull numBytes ;;                           (* r == numBytes from here on *)
-  let consumed := (consumed + numBytes) mod 256 in
+  let consumed := consumed + numBytes in
   pfx <- deserializePrefix bytes pfxLen afi ;;
   ret (mkNLRI pid labels pfx, consumed).
 
-(* decodeNLRIs: `for p < length`, p uint16 *)
+(* decodeNLRIs: `for p < length`, p an int; afterwards p must equal length (fix cb347c01) *)
 Fixpoint decodeNLRIs (fuel : nat) (length p afi safi : N) (addPath : bool) (acc : list nlri)
   : M (list nlri) :=
   match fuel with
@@ -270,8 +271,8 @@ Fixpoint decodeNLRIs (fuel : nat) (length p afi safi : N) (addPath : bool) (acc 
   | S f =>
     if p <? length then
       '(n, consumed) <- decodeNLRI fuel afi safi addPath ;;
-      decodeNLRIs f length ((p + consumed) mod 65536) afi safi addPath (n :: acc)
-    else ret (rev acc)
+      decodeNLRIs f length (p + consumed) afi safi addPath (n :: acc)
+    else _ <- guard (p =? length) ;; ret (rev acc)
   end.
 
 (* ------------------------------------------------------------------ MP_REACH / MP_UNREACH *)
@@ -320,11 +321,9 @@ Definition deserializeMPUnreach (fuel : nat) (o : options) (L : N) : M attrval :
 
 (* ------------------------------------------------------------------ path attributes *)
 
-Definition sub16 (a b : N) : N := (a + 65536 - b) mod 65536.      (* uint16 a - b, b <= 65535 *)
-
 Definition decodeASN (asnLen : N) : M N := if asnLen =? 4 then readU32 else readU16.
 
-(* decodeASPath: `for p < pa.Length`, p uint16 *)
+(* decodeASPath: `for p < pa.Length`, p an int; afterwards p must equal pa.Length (fix 2a770554) *)
 Fixpoint decodeASPath (fuel : nat) (L asnLen p : N) (acc : list (N * list N)) : M attrval :=
   match fuel with
   | O => nofuel
@@ -332,14 +331,14 @@ Fixpoint decodeASPath (fuel : nat) (L asnLen p : N) (acc : list (N * list N)) : 
     if p <? L then
       ty <- readByte ;;
       count <- readByte ;;
-      let p := (p + 2) mod 65536 in
+      let p := p + 2 in
       _ <- guard ((ty =? 1) || (ty =? 2)) ;;
       _ <- guard (negb (count =? 0)) ;;
       _ <- alloc (4 * count) ;;                                (* make([]uint32, count) *)
       asns <- repeatM (N.to_nat count) (decodeASN asnLen) ;;
-      let p := (p + count * asnLen) mod 65536 in
+      let p := p + count * asnLen in
       decodeASPath f L asnLen p ((ty, asns) :: acc)
-    else ret (AVASPath (rev acc))
+    else _ <- guard (p =? L) ;; ret (AVASPath (rev acc))
   end.
 
 Definition decodeU32List (L : N) : M (list N) :=               (* communities, cluster list *)
@@ -352,18 +351,19 @@ Definition decodeLarge (L : N) : M (list (N * N * N)) :=
   _ <- alloc (12 * (L / 12)) ;;
   repeatM (N.to_nat (L / 12)) (a <- read4 ;; b <- read4 ;; c <- read4 ;; ret (a, b, c)).
 
-(* decodeUint32 (ORIGINATOR_ID, AS4_AGGREGATOR): 4 bytes, then skip uint16(Length-4) bytes *)
+(* decodeUint32 (ORIGINATOR_ID, AS4_AGGREGATOR): Length >= 4 (fix 127ffb48), 4 bytes, then skip Length-4 bytes *)
 Definition decodeU32Dump (L : N) : M attrval :=
-  v <- read4 ;; _ <- dumpN (sub16 L 4) ;; ret (AVU32 v).
+  _ <- guard (4 <=? L) ;; v <- read4 ;; _ <- dumpN (L - 4) ;; ret (AVU32 v).
 
 Definition decodeAttrValue (fuel : nat) (o : options) (ty L : N) : M attrval :=
-  if ty =? 1 then v <- readByte ;; _ <- dumpN (sub16 L 1) ;; ret (AVOrigin v)
+  if ty =? 1 then _ <- guard (1 <=? L) ;; v <- readByte ;; _ <- dumpN (L - 1) ;; ret (AVOrigin v)
   else if ty =? 2 then decodeASPath fuel L (if asn32 o then 4 else 2) 0 []
-  else if ty =? 3 then v <- readU32 ;; ret (AVNextHop (IP4 v))
-  else if ty =? 4 then v <- readU32 ;; ret (AVU32 v)
-  else if ty =? 5 then v <- readU32 ;; ret (AVU32 v)
-  else if ty =? 7 then a <- readU16 ;; ad <- readU32 ;; _ <- dumpN (sub16 L 6) ;; ret (AVAggregator a ad)
-  else if ty =? 6 then ret AVNone
+  else if ty =? 3 then _ <- guard (L =? 4) ;; v <- readU32 ;; ret (AVNextHop (IP4 v))
+  else if ty =? 4 then _ <- guard (L =? 4) ;; v <- readU32 ;; ret (AVU32 v)
+  else if ty =? 5 then _ <- guard (L =? 4) ;; v <- readU32 ;; ret (AVU32 v)
+  else if ty =? 7 then
+    _ <- guard (6 <=? L) ;; a <- readU16 ;; ad <- readU32 ;; _ <- dumpN (L - 6) ;; ret (AVAggregator a ad)
+  else if ty =? 6 then _ <- guard (L =? 0) ;; ret AVNone
   else if ty =? 8 then l <- decodeU32List L ;; ret (AVComms l)
   else if ty =? 9 then decodeU32Dump L
   else if ty =? 10 then l <- decodeU32List L ;; ret (AVCluster l)
@@ -404,14 +404,19 @@ Definition decodePathAttrs (fuel : nat) (o : options) (tpal : N) : M (list attr)
 
 (* ------------------------------------------------------------------ UPDATE *)
 
+Definition hasAttr (t : N) (l : list attr) : bool := existsb (fun a => a_type a =? t) l.
+
 Definition decodeUpdate (fuel : nat) (o : options) (l : N) : M update_msg :=
   wlen <- readU16 ;;
   wd <- decodeNLRIs fuel wlen 0 1 1 (addPath4 o) [] ;;
   tpal <- readU16 ;;
+  _ <- guard (4 + wlen + tpal <=? l) ;;                      (* fix e9b797e7: no uint16 wrap below *)
   attrs <- decodePathAttrs fuel o tpal ;;
-  let nlriLen := sub16 (sub16 (sub16 l 4) tpal) wlen in
+  let nlriLen := l - 4 - tpal - wlen in
   if 0 <? nlriLen then
     nl <- decodeNLRIs fuel nlriLen 0 1 1 (addPath4 o) [] ;;
+    (* fix 1a8a2a3a: NLRI present => ORIGIN, AS_PATH, NEXT_HOP present *)
+    _ <- guard (hasAttr 1 attrs && hasAttr 2 attrs && hasAttr 3 attrs) ;;
     ret (mkUpdate wlen wd tpal attrs nl)
   else ret (mkUpdate wlen wd tpal attrs []).
 
